@@ -372,6 +372,12 @@ def add_special_methods(prog, rng, backend):
         add(host, "stringifier", pick(), ("ref", None), [("w", ("write",))], ("unit",))
     if sup["named_constructors"] and rng.random() < 0.5:
         add(host, "named_constructor", pick(), None, [("v", ("prim", "u32"))], ("obox", host.name, False))
+    # constructors of value types: a struct, and an out-struct (ids of the two kinds are counted separately inside the tool)
+    for vt in [t for t in prog.types() if t.kind in ("struct", "outstruct") and not t.lifetimes]:
+        if sup["constructors"] and rng.random() < 0.35:
+            add(vt, "constructor", pick(), None, [("v", ("prim", "u8"))], ("struct", vt.name))
+        elif sup["named_constructors"] and rng.random() < 0.25:
+            add(vt, "named_constructor", pick(), None, [("v", ("prim", "u8"))], ("struct", vt.name))
     if sup["accessors"] and rng.random() < 0.6:
         g = "prop_" + pick()          # never the name of a sibling method: that collision is probed separately (C15 F33)
         add(host, "getter = \"%s\"" % g, "fetch_" + g, ("ref", None), [], ("prim", "u32"))
